@@ -28,6 +28,10 @@ def check(run):
         run.violation("shapes:" + str(f.get("n", f.get("check_tree"))), "shape enumeration disagrees with the independent enumeration: %s" % f,
                       {"harness": "rt_gen.py", "payload": {"mode": "shapes", "nmax": nshape, "ct_nmax": 8}})
     groups = genjobs.job_groups(tier, run.seed)
+    for g in groups:
+        # the two largest complexities of every library are generated twice into the same directory (truncation of append-mode files)
+        for job in g[-2:]:
+            job["repeat"] = True
     root, res = genjobs.run_groups(run, "c01", groups)
     for g, call, rr in res:
         run.add_bounded("tree list = all labelled trees (multiset), per-function files aligned", "generator.generate_equations / duplicate_checker.main",
